@@ -71,7 +71,7 @@ def _eval_alphabet(T, dt):
     return out
 
 
-def _check_grid(seq, T_expected, dt, ev, mod, config_cls, obs_cls):
+def _check_grid(seq, T_expected, dt, ev, mod, config_cls, obs_cls, all_default=False):
     from emu_base import PulserData
 
     # Pulser refuses times closer than 1e-12 inside one observable: hand such twins to two observables
@@ -81,7 +81,11 @@ def _check_grid(seq, T_expected, dt, ev, mod, config_cls, obs_cls):
     import emu_sv
 
     kw = {}
-    if len(first) >= 2 and not second:
+    if all_default and not second:
+        # no observable brings its own times: every requested time comes from the config default
+        observables = [obs_cls(evaluation_times=None), emu_sv.CorrelationMatrix(evaluation_times=None)]
+        kw["default_evaluation_times"] = first
+    elif len(first) >= 2 and not second:
         # an observable following the config default (first time) listed BEFORE one that brings its own times: both sets must reach the grid
         observables = [obs_cls(evaluation_times=None), emu_sv.CorrelationMatrix(evaluation_times=first[1:])]
         kw["default_evaluation_times"] = first[:1]
@@ -91,7 +95,7 @@ def _check_grid(seq, T_expected, dt, ev, mod, config_cls, obs_cls):
     pd = PulserData(sequence=seq, config=cfg, dt=dt)
     tt = list(pd.target_times)
     T = float(seq.get_duration(include_fall_time=mod))
-    tag = f"duration={T} dt={dt} eval={list(ev)} mod={mod}"
+    tag = f"duration={T} dt={dt} eval={list(ev)} mod={mod}" + (" (config default times only)" if all_default else "")
     if tt[0] != 0.0:
         return f"{tag}: grid starts at {tt[0]!r}"
     if tt[-1] != T:
@@ -143,6 +147,9 @@ def run_case(case):
                 n += 1
                 try:
                     err = _check_grid(seq, Tm, dt, ev, mod, emu_sv.SVConfig, emu_sv.Occupation)
+                    if not err and len(ev) <= 2:
+                        n += 1
+                        err = _check_grid(seq, Tm, dt, ev, mod, emu_sv.SVConfig, emu_sv.Occupation, all_default=True)
                 except Exception as e:
                     err = f"duration={Tm} dt={dt} eval={list(ev)} mod={mod}: PulserData raised {type(e).__name__}: {e}"
                 if err:
